@@ -115,7 +115,7 @@ var kindNames = map[lexer.TokenKind]string{
 	lexer.String: "string", lexer.Int: "int", lexer.Float: "float", lexer.Identifier: "identifier",
 }
 
-func kindName(k lexer.TokenKind) string {
+func tokKindName(k lexer.TokenKind) string {
 	if n, ok := kindNames[k]; ok {
 		return n
 	}
@@ -154,7 +154,7 @@ func realLex(src, file string) (res realLexResult) {
 		}
 		res.Kinds = append(res.Kinds, t.Kind)
 		res.Toks = append(res.Toks, reflex.Tok{
-			Kind: kindName(t.Kind), Value: t.Value,
+			Kind: tokKindName(t.Kind), Value: t.Value,
 			Start: reflex.Pos{Line: int(t.Span.Start.Line), Col: int(t.Span.Start.Column), Idx: int(t.Span.Start.Index)},
 			End:   reflex.Pos{Line: int(t.Span.End.Line), Col: int(t.Span.End.Column), Idx: int(t.Span.End.Index)},
 			File:  t.Span.Filename,
@@ -182,12 +182,12 @@ func kindString(k lexer.TokenKind) (s string, panicked string) {
 // reports at most failCapPerKey cases per (class, tags) and counts the rest in a note.
 const failCapPerKey = 12
 
-var failSeen = map[string]int{}
+var feFailSeen = map[string]int{}
 
 func failCapped(r *Result, class string, tags []string, cas, detail string) {
 	key := class + "\x00" + strings.Join(tags, ",")
-	failSeen[key]++
-	if failSeen[key] > failCapPerKey {
+	feFailSeen[key]++
+	if feFailSeen[key] > failCapPerKey {
 		r.Note("further-failing-cases-not-listed:"+class, 1)
 		return
 	}
